@@ -28,17 +28,21 @@ static struct aws_ring_buffer ring;
 static struct aws_byte_buf granted[MAXP];
 static size_t g_off[MAXP], g_cap[MAXP];
 static volatile int n_granted, n_release_started, n_released;
+/* hand-off between the two harness threads: real release/acquire atomics, so that the free-running ThreadSanitizer twin sees
+ * the harness's own synchronisation (under the controlled scheduler they are ordinary loads and stores: this TU is not hooked) */
+#define HS_SET(var, val) __atomic_store_n(&(var), (val), __ATOMIC_SEQ_CST)
+#define HS_GET(var) __atomic_load_n(&(var), __ATOMIC_SEQ_CST)
 static int outstanding[MAXP];
 static int acq_fail_spins;
 
 static void *releaser(void *arg) {
     (void)arg;
     for (int k = 0; k < g_len; ++k) {
-        while (n_granted <= k) vs_user_yield();
+        while (HS_GET(n_granted) <= k) vs_user_yield();
         outstanding[k] = 0; /* release starts */
-        n_release_started = k + 1;
+        HS_SET(n_release_started, k + 1);
         aws_ring_buffer_release(&ring, &granted[k]);
-        n_released = k + 1;
+        HS_SET(n_released, k + 1);
     }
     return NULL;
 }
@@ -76,13 +80,13 @@ static void run_prog(void) {
             struct aws_byte_buf b;
             AWS_ZERO_STRUCT(b);
             aws_reset_error();
-            int released_before = n_released; /* releases COMPLETED before this call began */
+            int released_before = HS_GET(n_released); /* releases COMPLETED before this call began */
             int rc = e->upto ? aws_ring_buffer_acquire_up_to(&ring, e->min, e->n, &b) : aws_ring_buffer_acquire(&ring, e->n, &b);
             if (rc == AWS_OP_SUCCESS) {
                 check_grant(k, &b);
                 granted[k] = b;
                 outstanding[k] = 1;
-                n_granted = k + 1;
+                HS_SET(n_granted, k + 1);
                 break;
             }
             VS_CHECK(aws_last_error() == AWS_ERROR_OOM, "error-code", "acquire failed with error %d", aws_last_error());
@@ -91,7 +95,7 @@ static void run_prog(void) {
                 granted[k] = b;
                 g_cap[k] = 0;
                 outstanding[k] = 0;
-                n_granted = k + 1;
+                HS_SET(n_granted, k + 1);
                 break;
             }
             /* everything granted so far had been completely released before the call began => must succeed */
@@ -169,11 +173,11 @@ int main(int argc, char **argv) {
      * quick   : ring 6, alphabet {2,3,S,U(1,S)}, all programs of length <= 4 (a wrap needs three grants, and the state
      *           "wrapped, two buffers outstanding, request larger than the tail gap" needs a fourth - added after a
      *           seeded interleaving bug in the wrapped branch that the length-3 programs could not reach);
-     *           ring 4, full alphabet, length <= 3.
+     *           ring 4, full alphabet, length <= 2.
      * thorough: rings 4 and 6, full alphabet, length <= 4. */
     {
         static const int sub4[4] = {1, 2, 3, 4}; /* 2,3,S,U */
-        int maxlen_full = v_thorough() ? 4 : 3;
+        int maxlen_full = v_thorough() ? 4 : 2;
         size_t sizes[2] = {4, 6};
         for (int s = 0; s < 2; ++s) {
             if (!v_thorough() && sizes[s] == 6) continue;
